@@ -41,6 +41,7 @@ import (
 	localhost "github.com/cosmos/ibc-go/v8/modules/light-clients/09-localhost"
 
 	"github.com/noble-assets/orbiter/v2/simapp"
+	orbitertypes "github.com/noble-assets/orbiter/v2/types"
 	"github.com/noble-assets/orbiter/v2/types/core"
 )
 
@@ -213,7 +214,7 @@ func pad32(b byte) []byte {
 }
 
 // genesis builds the application genesis document.
-func (e *Env) genesis(app *simapp.SimApp, valSet *cmttypes.ValidatorSet) []byte {
+func (e *Env) genesis(app *simapp.SimApp, valSet *cmttypes.ValidatorSet, orbiterGen *orbitertypes.GenesisState) []byte {
 	cdc := app.OrbiterKeeper.Codec()
 	g := app.DefaultGenesis()
 	var accs []authtypes.GenesisAccount
@@ -270,11 +271,32 @@ func (e *Env) genesis(app *simapp.SimApp, valSet *cmttypes.ValidatorSet) []byte 
 		NextAvailableNonce:                &cctptypes.Nonce{Nonce: 0},
 		SignatureThreshold:                &cctptypes.SignatureThreshold{Amount: 1},
 	})
+	if orbiterGen != nil {
+		g["orbiter"] = cdc.MustMarshalJSON(orbiterGen)
+	}
 	bz, err := json.Marshal(g)
 	if err != nil {
 		panic(err)
 	}
 	return bz
+}
+
+// newGenesisOnlyNode: a fresh application instance initialised through real InitChain with the
+// environment genesis and the given orbiter section (no set-up blocks).
+func newGenesisOnlyNode(env *Env, orbiterGen *orbitertypes.GenesisState) *Node {
+	n := &Node{Env: env, db: dbm.NewMemDB(), now: GenesisTime}
+	priv := ed25519.GenPrivKeyFromSecret([]byte("orbsim/validator"))
+	n.valSet = cmttypes.NewValidatorSet([]*cmttypes.Validator{cmttypes.NewValidator(priv.PubKey(), 1)})
+	n.Boot()
+	_, err := n.App.InitChain(&abci.RequestInitChain{
+		ChainId: ChainID, ConsensusParams: simtestutil.DefaultConsensusParams,
+		AppStateBytes: env.genesis(n.App, n.valSet, orbiterGen), Time: n.now,
+	})
+	if err != nil {
+		panic(err)
+	}
+	n.mustBlock()
+	return n
 }
 
 // NewWorld boots a node and performs the seed-independent set-up blocks:
@@ -288,7 +310,7 @@ func NewWorld(onBoot func(n *Node)) *Node {
 	n.Boot()
 	_, err := n.App.InitChain(&abci.RequestInitChain{
 		ChainId: ChainID, ConsensusParams: simtestutil.DefaultConsensusParams,
-		AppStateBytes: env.genesis(n.App, n.valSet), Time: n.now,
+		AppStateBytes: env.genesis(n.App, n.valSet, nil), Time: n.now,
 	})
 	if err != nil {
 		panic(err)
